@@ -11,6 +11,8 @@ def run(ck):
     q = ck.quick(); rng = ck.rng
     # the mpfr_t-centre constructor is in the quick tier too (every variant: both index widths, both depths)
     prms = gc.PARAMS_QUICK + [gc.PARAMS_MORE[1]] + ([] if q else [x for i, x in enumerate(gc.PARAMS_MORE) if i != 1])
+    # a security level whose full-precision comparison is longer than 32 words (a fixed-size scratch area sized for the usual lambda = 128 overflows)
+    prms = prms + [(3.19, 256, 1024, "0", "d")]
     fails, corr = [], []
     n_cases = 0; samples = []
     for prm in prms:
